@@ -22,6 +22,7 @@ import (
 	"go/token"
 	"go/types"
 	"os"
+	"path/filepath"
 	"reflect"
 	"strconv"
 	"strings"
@@ -557,6 +558,9 @@ func (oc *objectCache) processExpr(info *types.Info, pkgPath string, expr ast.Ex
 	expr = astutil.Unparen(expr)
 	if obj := qualifiedIdentObject(info, expr); obj != nil {
 		item, errs := oc.get(obj)
+		if _, isFunc := obj.(*types.Func); isFunc {
+			errs = atUse(exprPos, errs)
+		}
 		return item, mapErrors(errs, func(err error) error {
 			return notePosition(exprPos, err)
 		})
@@ -598,7 +602,7 @@ func (oc *objectCache) processExpr(info *types.Info, pkgPath string, expr ast.Ex
 		case "Struct":
 			s, err := processStructProvider(oc.fset, info, call)
 			if err != nil {
-				return nil, []error{notePosition(exprPos, err)}
+				return nil, notePositionAll(exprPos, atUse(exprPos, []error{err}))
 			}
 			return s, nil
 		case "FieldsOf":
@@ -614,11 +618,26 @@ func (oc *objectCache) processExpr(info *types.Info, pkgPath string, expr ast.Ex
 	if tn := structArgType(info, expr); tn != nil {
 		p, errs := processStructLiteralProvider(oc.fset, tn)
 		if len(errs) > 0 {
-			return nil, notePositionAll(exprPos, errs)
+			return nil, notePositionAll(exprPos, atUse(exprPos, errs))
 		}
 		return p, nil
 	}
 	return nil, []error{notePosition(exprPos, errors.New("unknown pattern"))}
+}
+
+// atUse re-positions errors about the declaration of a provider function or
+// struct that lives in another directory (another package, possibly the
+// standard library) at the expression that uses it, so that the diagnostic
+// points into the sources being processed; the declaration's position is kept
+// in the message.
+func atUse(usePos token.Position, errs []error) []error {
+	return mapErrors(errs, func(err error) error {
+		w, ok := err.(*wireErr)
+		if !ok || !w.position.IsValid() || !usePos.IsValid() || filepath.Dir(w.position.Filename) == filepath.Dir(usePos.Filename) {
+			return err
+		}
+		return &wireErr{position: usePos, error: fmt.Errorf("%v (declared at %v)", w.error, w.position)}
+	})
 }
 
 func (oc *objectCache) processNewSet(info *types.Info, pkgPath string, call *ast.CallExpr, args *InjectorArgs, varName string) (*ProviderSet, []error) {
